@@ -170,7 +170,34 @@ def clamp(R, prog):
                require=lambda st, ev: True, key_fn=lambda ev: P + '.K6:ICacheStore::preadv2:eof-returns-0', describe=lambda ev: 'reads at/after EOF return 0', min_sites=1)
 
 
+def interval_set(R, prog):
+    """K9: the filled-range interval set is mutated only by the three operations that keep it a disjoint set of exactly the filled
+    bytes - addRange (merges), removeRange (cuts the intervals that straddle the borders), clear.  Everything else (removeFrom, the
+    queries) goes through them: an erase that bypasses removeRange keeps a straddling interval whole, i.e. claims bytes that were dropped."""
+    RM = 'photon::fs::RangeModule'
+    fs = [f for f in prog.funcs.values() if (f.rec or '') == RM]
+    R.require(len(fs) >= 5, 'C17: RangeModule not found in the analysed units')
+    allowed = {RM + '::addRange', RM + '::removeRange', RM + '::clear'}
+    MUT = ('erase', 'clear', 'insert', 'emplace', 'emplace_hint', 'operator[]', 'swap', 'operator=', 'extract', 'merge')
+    n = 0
+    for f in sorted(fs, key=lambda f: f.line):
+        for e in f.exprs:
+            if e['k'] == 'call' and 'recv' in e and strip_targs(e.get('fn') or '').split('::')[-1] in MUT and (f.path(e['recv']) or '').endswith('intervals'):
+                n += 1
+                key = '%s.K9:RangeModule::%s:interval-set-mutated-only-by-add/removeRange/clear' % (P, f.nname.split('::')[-1])
+                (R.held if f.nname in allowed else R.violated)(P + '.K9', key, f.id, f.locl(e['loc']), '%s in %s' % (f.show(f.exprs.index(e))[:70], f.nname.split('::')[-1]))
+    if n < 4:
+        R.broken.append('C17.K9: expected >= 4 mutations of RangeModule::intervals, found %d' % n)
+    # removeFrom is removeRange with an open right end
+    f = prog.find(RM + '::removeFrom')
+    calls = [e for e in f.exprs if e['k'] == 'call' and strip_targs(e.get('fn') or '') == RM + '::removeRange']
+    ok = len(calls) == 1 and f.path(calls[0]['args'][0]) == K.param(f, 0) and 'max' in f.show(calls[0]['args'][1])
+    (R.held if ok else R.violated)(P + '.K10', P + '.K10:RangeModule::removeFrom:is-removeRange-to-the-end', f.id, '%s:%d' % (f.file, f.line),
+                                    'removeFrom(offset) = removeRange(offset, max): the interval straddling `offset` is cut, not kept')
+
+
 def run(R, prog, tier):
+    R.guard(interval_set, R, prog)
     R.guard(locking, R, prog)
     R.guard(provenance, R, prog)
     R.guard(refill, R, prog)
